@@ -83,7 +83,9 @@ example :
 
 `Op` (`Proofs/QueryGenRun.lean`) are the operations of one instance that touch its question history — any browser's
 `generate_service_query`, any lookup's `_generate_request_query`, `async_response` on an assembled query, the 10 s clean-up tick — with
-arbitrary caches, clocks, types and names per operation.  `runOps [] ops` is the history after the run together with the run's
+arbitrary caches, clocks, types and names per operation.  The list is the order of **execution**; the clocks are arbitrary, but
+`C13.Chrono` (hypothesis of `C13_suppress_any_sighting_partial` only) additionally demands that execution order is clock order, which a
+heard truncated query that the listener deferred violates (see `C13.Chrono`, finding R3-C13-a).  `runOps [] ops` is the history after the run together with the run's
 **sightings**: every QM question the instance transmitted and every QM question it heard that it can answer, each with its time and
 known-answer list.  The sentence of the property speaks about these sightings, not about the dict. -/
 
@@ -290,6 +292,50 @@ theorem C13_heard_at_arrival_refuted : ¬ C13.heard_at_arrival_full id := by
   rw [this] at h2
   cases h2
 
+/-! ## a duplicate lookup question is not transmitted (the lookup analogue of `C13_repeat_suppressed`) -/
+
+/-- **A lookup question asked QM is not asked again within 999 ms with a covering list.**  After `_add_question_with_known_answers`
+emitted the QM question `(name, type, cls)` at `now` (whatever the history held), the same question at `now'` at most 999 ms later, on a
+cache whose known answers cover the ones listed at `now`, is omitted — by the history, or because an answer is now held (`skip`).
+This is what keeps the early third request of finding D13 (generated 220–320 ms after the second — `C13_lookup_spacing_refuted`) **silent
+when it is a duplicate**: every question the second request transmitted is dropped from the third unless its known-answer list shrank;
+only new questions (asked for the first time) or shrunken lists go out — D13's class.
+Not composed here: the four questions of one request are threaded through one history; they have four different types, hence four
+different keys, so the entry of one survives the other three writes (`get_add_ne`) — stated per question only. -/
+theorem C13_lookup_repeat_suppressed (cache cache' : List Rec) (h : History) (now now' : Int) (name : String) (type cls : Nat) (skip skip' : Bool)
+    (hasked : (addQuestion lower cache h now false name type cls skip).1 ≠ none) (hgap : now' - now ≤ 999)
+    (hcov : ∀ r ∈ knownAnswers lower cache name type cls now, ∃ k ∈ knownAnswers lower cache' name type cls now', r.beq lower k = true) :
+    (addQuestion lower cache' (addQuestion lower cache h now false name type cls skip).2 now' false name type cls skip').1 = none := by
+  have hrec : (addQuestion lower cache h now false name type cls skip).2.get lower { name, type, class_ := cls, unique := false } =
+      some { q := { name, type, class_ := cls, unique := false }, time := now, known := knownAnswers lower cache name type cls now } := by
+    rw [addQuestion_eq] at hasked ⊢
+    split at hasked
+    · exact absurd rfl hasked
+    · rename_i h1
+      rw [if_neg h1]
+      simp only [Bool.false_eq_true, if_false] at hasked ⊢
+      split at hasked
+      · exact absurd rfl hasked
+      · rename_i h2
+        rw [if_neg h2]
+        exact get_add lower h _ now _
+  rw [addQuestion_eq]
+  split
+  · rfl
+  · simp only [Bool.false_eq_true, if_false]
+    have hs : (addQuestion lower cache h now false name type cls skip).2.suppresses lower { name, type, class_ := cls, unique := false } now'
+        (knownAnswers lower cache' name type cls now') = true :=
+      (suppresses_iff lower _ _ now' _).2 ⟨_, hrec, hgap, hcov⟩
+    rw [if_pos hs]
+
+/-- non-vacuity: the A question asked at 1000 with one known answer; at 1246 (the early third request) with the same cache it is omitted,
+with an empty cache (the list shrank) it is asked again -/
+example :
+    let a : Rec := { name := "h.local.", type := 1, class_ := 1, unique := true, ttl := 4500, created := 0, rdata := .addr [10, 0, 0, 1] none }
+    (addQuestion id [a] (addQuestion id [a] [] 1000 false "h.local." 1 1 false).2 1246 false "h.local." 1 1 false).1.isNone = true ∧
+    (addQuestion id [] (addQuestion id [a] [] 1000 false "h.local." 1 1 false).2 1246 false "h.local." 1 1 false).1.isSome = true := by
+  decide
+
 /-! ## what one `generate_service_query` / `_generate_request_query` call emits -/
 
 /-- **The questions of one browser query.**  `serviceQuestions` is `generate_service_query` up to the bucket grouping: the per-type loop
@@ -366,7 +412,10 @@ def C13.qtypeOf (n : Nat) : Option Bool := if n = 0 then none else some (n == 1)
 /-- **What a browser hands to `generate_service_query`** (`QueryScheduler.async_send_ready_queries`, translated leaves — review E6): its
 scheduler pass's own clock, and a question type that makes the query **QU exactly on the first request of a browser with no forced
 type**; a forced type is used for every request; an unforced browser's later requests are QM on a multicast browser (`quOf true none`).
-Which request is "first" (`_startup_queries_sent == 0`) and when requests are made is C10's (`C10_startup_four`). -/
+Which request is "first" (`_startup_queries_sent == 0`) and when requests are made is C10's (`C10_startup_four`).
+**Not tied here**: the `multicast` flag handed over as the fourth argument (`self._multicast`, computed from the browser's address in
+`_ServiceBrowserBase.__init__`) — `quOf true` assumes a multicast browser; a wrong flag is caught by C10's harness (`C10:startup-qu`,
+`C10:qu-bit-wire`, review r3 m1), not by this check, which runs no browser. -/
 theorem C13_browser_call_site (now : Int) (first : Bool) (forced : Nat) :
     Gen.BrowserQuery.query_time now = now ∧
     quOf true (C13.qtypeOf (Gen.BrowserQuery.query_type_arg (Gen.BrowserQuery.question_type (forced == 0) first 1 forced))) =
@@ -427,7 +476,9 @@ theorem C13_split_on_wire_partial (m : Encode.Msg) (hq : C13.QueryMsg m) (hwf : 
   rw [hflags.2] at hqs hans
   exact ⟨msgs', e, ne, (htc hquery).1, (htc hquery).2, hqs, hans, C14_sizes m hwf hfit pks h⟩
 
-/-- non-vacuity: C14's two-datagram query `exSplit` has the flags of a lookup query, and its packets are a TC train -/
+/-- non-vacuity of the conclusion only: C14's two-datagram query `exSplit` has the flags of a lookup query, and its packets are a TC
+train.  It is **not** shown to be a `C13.QueryMsg` (a `lookupMsg`/`bucketMsg` built from a cache): only the flags are compared; that real
+lookup and browser queries split this way is what the `req`/`loop`/`svc` streams observe on the decoded packets. -/
 example : exSplit.flags = Gen.flagsQrQuery ∧
     (packets exSplit).toOption.map (fun pks => pks.map (fun p => (Strict.decode p).map (fun w => (w.flags &&& 512, w.questions.length, w.answers.length)))) =
       some [some (512, 1, 1), some (0, 0, 1)] := by
